@@ -193,7 +193,7 @@ static void inverse_law(vt::Rng& g, long long id, const vector<Sym>& syms) {
   int fi = int(g.range(0, NF - 1)); double f = FS[fi], a = g.coin() ? 6378137.0 : (g.coin() ? 6.4e6 : 1.0);
   LD scale = a / 6378137.0L;
   double lat1 = g.uni(-90, 90), lon1 = g.uni(-180, 180), lat2 = g.uni(-90, 90), lon2 = g.uni(-180, 180);
-  int cls = int(g.range(0, 11));   // regimes of the inverse problem
+  int cls = int(g.range(0, 12));   // regimes of the inverse problem
   switch (cls) {
   case 1: lon2 = lon1; break;                                                  // meridional
   case 2: lat1 = lat2 = 0; break;                                              // equatorial (incl. beyond the break-away longitude)
@@ -204,6 +204,9 @@ static void inverse_law(vt::Rng& g, long long id, const vector<Sym>& syms) {
   case 7: lat2 = -lat1; lon2 = lon1 + 180; break;                              // exactly antipodal-ish (non-unique on a sphere)
   case 8: lat2 = lat1; lon2 = lon1; break;                                     // coincident
   case 9: lon1 = g.uni(-720, 720); lon2 = g.uni(-720, 720); break;             // unreduced longitudes
+  case 10: { double sg = g.coin() ? 1 : -1;                                    // short lines right next to a pole, any two meridians
+    lat1 = sg * (90 - pow(10.0, g.uni(-9, -5))); lat2 = sg * (90 - pow(10.0, g.uni(-9, -5))); break; }
+  case 11: lat1 = g.uni(-90, 90); lat2 = lat1 + g.uni(-1, 1) * pow(10.0, g.uni(-9, -5)); lon2 = lon1 + g.uni(-1, 1) * pow(10.0, g.uni(-9, -5)); lat2 = max(-90.0, min(90.0, lat2)); break; // short (mm .. m)
   default: break;
   }
   Sol S[3] = {Sol(0, a, f), Sol(1, a, f), Sol(2, a, f)};
@@ -217,6 +220,7 @@ static void inverse_law(vt::Rng& g, long long id, const vector<Sym>& syms) {
                uq(90 - fabs(lat1), 1e-9L), uq(90 - fabs(lat2), 1e-9L)});
   // the catalogue of non-unique shortest geodesics (Geodesic.hpp): lat1 = -lat2 is unique only if azi1 = azi2;
   // lon2 = lon1 +- 180 is unique only if azi1 = 0 or +-180
+  r.i("m12m", vt::q1(fabsl((LD)m12[1]) / scale, 1.0L));      // |m12| in metres (WGS84 size): conditioning of the azimuths
   r.b("eqaz", azi1[1] == azi2[1] && azi1[0] == azi2[0]).b("meraz", fabs(azi1[1]) == 0 || fabs(azi1[1]) == 180);
   // I1 closure through the direct problem, each solver by itself
   vector<long long> clo, clt;
@@ -280,7 +284,7 @@ static void add_law(vt::Rng& g, long long id) {
     PolygonAreaExact pe(s.e, false); PolygonArea pg(s.g, false);
     double per, ar; if (k == 1) { for (int i = 0; i < 3; ++i) pe.AddPoint(la[i], lo[i]); pe.Compute(false, true, per, ar); } else { for (int i = 0; i < 3; ++i) pg.AddPoint(la[i], lo[i]); pg.Compute(false, true, per, ar); }
     // counter-clockwise positive area = -sum (mod area/2: the crossing rule adds multiples of half the area)
-    r.li("poly", {uq(remainderl(sum + (LD)ar, area / 2) / (scale * scale), 1e-4L)}); }
+    r.li("poly", {min(500000000LL, uq(remainderl(sum + (LD)ar, area / 2) / (scale * scale), 1e-4L))}); }
   // ellipsoid area: four classes and the closed form 2 pi (a^2 + b^2 atanh(e)/e)
   { LD b = (LD)a * (1 - (LD)f), e2 = (LD)f * (2 - (LD)f), cf;
     if (f == 0) cf = 4 * PIL * (LD)a * a; else if (f > 0) { LD e = sqrtl(e2); cf = 2 * PIL * ((LD)a * a + b * b * atanhl(e) / e); } else { LD e = sqrtl(-e2); cf = 2 * PIL * ((LD)a * a + b * b * atanl(e) / e); }
